@@ -33,6 +33,7 @@ var phraseOf = map[string][]string{
 	"ivalue-notiface": {"must be a pointer to an interface type"},
 	"inj-sig":         {"no return values", "second return type", "third return type", "too many return values"},
 	"inaccessible":    {"can't be used"},
+	"notprovider":     {"is not a provider or a provider set"},
 	"notstruct":       {"must be a pointer to a named struct", "must be a pointer to a struct", "does not name a struct"},
 }
 
